@@ -13,7 +13,7 @@ from pathlib import Path
 
 def main():
     so_path, work_path, out_path, prog_path = sys.argv[1:5]
-    sys.path.insert(0, "/verif")
+    sys.path.insert(0, str(Path(__file__).resolve().parent.parent))
     from fjv import engines, c01, c07
 
     fjm_run = engines.setup(native=True, so_path=Path(so_path))
